@@ -4,6 +4,7 @@
 set -e
 cd "$(dirname "$0")"
 export CARGO_NET_OFFLINE=true
+export CARGO_TARGET_DIR="$PWD/.cache/target"
 python3 tools/extract.py
 (cd coq && coq_makefile -f _CoqProject -o Makefile >/dev/null 2>&1 && timeout 3400 make -j16 >/dev/null 2>.make.err || { tail -30 .make.err; echo "coq build incomplete (checks will report it)"; })
 (cd harness && cargo build --offline 2>&1 | tail -3)
